@@ -365,4 +365,62 @@ theorem innerEnc_eq_leafEnc (a b : Bytes) (ha : a.length ≤ 32) (hb : b.length 
   have e2 : last32 b = b := by simp [last32]; omega
   simp [innerEnc, leafEnc, e1, e2]
 
+/-- a collision *located* in a given finite list of pre-images. -/
+def CollisionIn (H : Bytes → Bytes) (S : List Bytes) : Prop := ∃ x ∈ S, ∃ y ∈ S, x ≠ y ∧ H x = H y
+
+theorem CollisionIn.mono {H : Bytes → Bytes} {S T : List Bytes} (h : ∀ x ∈ S, x ∈ T) (c : CollisionIn H S) :
+    CollisionIn H T := by
+  obtain ⟨x, hx, y, hy, hne, e⟩ := c
+  exact ⟨x, h x hx, y, h y hy, hne, e⟩
+
+theorem CollisionIn.collision {H : Bytes → Bytes} {S : List Bytes} (c : CollisionIn H S) : Collision H := by
+  obtain ⟨x, _, y, _, hne, e⟩ := c
+  exact ⟨x, y, hne, e⟩
+
+/-- the pre-image `InnerNodeProofHash` hashes. -/
+def stepPre (c : Bytes) (b : InnerNode) : Bytes :=
+  if b.leftHash.isEmpty then innerEnc c b.rightHash b.height b.size else innerEnc b.leftHash c b.height b.size
+
+theorem step_eq (H : Bytes → Bytes) (c : Bytes) (b : InnerNode) : innerNodeProofHash H c b = H (stepPre c b) := by
+  unfold innerNodeProofHash stepPre; split <;> rfl
+
+/-- all pre-images hashed by the fold of `Proof.Verify` starting from child hash `c`. -/
+def foldTrace (H : Bytes → Bytes) : Bytes → List InnerNode → List Bytes
+  | _, [] => []
+  | c, x :: rest => stepPre c x :: foldTrace H (innerNodeProofHash H c x) rest
+
+/-- every pre-image hashed by `VerifyKVPairProof root (k, v) pb` (empty if `pb` does not decode). -/
+def verifyTrace (H : Bytes → Bytes) (k v pb : Bytes) : List Bytes :=
+  match decodeProof pb with
+  | none => []
+  | some ins => leafEnc k v :: foldTrace H (H (leafEnc k v)) ins
+
+theorem stepPre_inj {a b : Bytes} (ha : a.length = 32) (hb : b.length = 32) (x : InnerNode)
+    (e : stepPre a x = stepPre b x) : a = b := by
+  unfold stepPre at e
+  split at e
+  · exact innerEnc_inj_left ha hb e
+  · exact innerEnc_inj_right ha hb e
+
+theorem fold_inj_located {H : Bytes → Bytes} (hlen : ∀ x, (H x).length = 32) (ins : List InnerNode) :
+    ∀ a b : Bytes, a.length = 32 → b.length = 32 →
+      ins.foldl (innerNodeProofHash H) a = ins.foldl (innerNodeProofHash H) b →
+      a = b ∨ CollisionIn H (foldTrace H a ins ++ foldTrace H b ins) := by
+  induction ins with
+  | nil => intro a b _ _ e; exact Or.inl e
+  | cons x rest ih =>
+    intro a b ha hb e
+    simp only [List.foldl_cons] at e
+    rcases ih _ _ (step_length hlen a x) (step_length hlen b x) e with e' | c
+    · rw [step_eq, step_eq] at e'
+      by_cases hp : stepPre a x = stepPre b x
+      · exact Or.inl (stepPre_inj ha hb x hp)
+      · exact Or.inr ⟨stepPre a x, by simp [foldTrace], stepPre b x, by simp [foldTrace], hp, e'⟩
+    · refine Or.inr (c.mono ?_)
+      intro y hy
+      simp only [foldTrace, List.mem_append, List.mem_cons] at hy ⊢
+      rcases hy with hy | hy
+      · exact Or.inl (Or.inr hy)
+      · exact Or.inr (Or.inr hy)
+
 end C03
